@@ -10,12 +10,12 @@ cd /verif/seeded || exit 2
 ls | grep -E "$PAT" | xargs -P $J -I{} sh -c '
   id={}; prop=$(echo $id | sed "s/.*-//")
   case $id in
-    P8-*|P10-*|P13-*) /verif/tools/preserve_eval.sh $id $prop > /tmp/seedreg/$id.log 2>&1 ;;
+    P8-*|P10-*|P13-*|P16-*) /verif/tools/preserve_eval.sh $id $prop > /tmp/seedreg/$id.log 2>&1 ;;
     *)    /verif/tools/seed_eval.sh $id $prop > /tmp/seedreg/$id.log 2>&1 ;;
   esac
   v=$(grep -c "^VIOLATION" /tmp/seedreg/$id.log); ok=$(grep -c "^OK property" /tmp/seedreg/$id.log); inc=$(grep -c "^INCONCLUSIVE" /tmp/seedreg/$id.log)
   case $id in
-    P8-*|P10-*|P13-*) if [ $v -eq 0 ] && [ $ok -ge 1 ]; then r=PASS; else r=FAIL; fi ;;
+    P8-*|P10-*|P13-*|P16-*) if [ $v -eq 0 ] && [ $ok -ge 1 ]; then r=PASS; else r=FAIL; fi ;;
     *)    if grep -q "\"final\": \"NOT REPORTED" /verif/seeded/$id/meta.json; then
             # judged equivalent within the scope of the property, see its meta.json: must stay unreported
             if [ $v -eq 0 ]; then r=PASS; else r=FAIL; fi
